@@ -111,10 +111,13 @@ func fromReal(c *synchronization.Configuration) Cfg {
 		Compr: int32(c.CompressionAlgorithm)}
 }
 
+// str renders a Go string as a Coq string term.
+func str(s string) string { return coretree.Str(s) }
+
 func strList(l []string) string {
 	items := make([]string, len(l))
 	for i, s := range l {
-		items[i] = coretree.Str(s)
+		items[i] = str(s)
 	}
 	return hx.List(items)
 }
@@ -132,7 +135,7 @@ func (c Cfg) coq() string {
 	}
 	return fmt.Sprintf("(Cf %d %d %d %d %d %d %d %d %d %d %d %s %s %d %d %d %d %s %s %d)",
 		c.Sync, c.Hash, c.MaxEntry, c.MaxStage, c.Probe, c.Scan, c.Stage, c.Symlink, c.Watch, c.Poll, c.Syntax,
-		strList(c.DefIgn), strList(c.Ign), c.VCS, c.Perm, c.FMode, c.DMode, coretree.Str(c.Owner), coretree.Str(c.Group), c.Compr)
+		strList(c.DefIgn), strList(c.Ign), c.VCS, c.Perm, c.FMode, c.DMode, str(c.Owner), str(c.Group), c.Compr)
 }
 
 // Case is the replay form of one case.
@@ -294,7 +297,7 @@ func optN(v int32, err error) string {
 	if err != nil {
 		return "None"
 	}
-	return fmt.Sprintf("(Some %d)", v)
+	return fmt.Sprintf("(Some %d%%N)", v)
 }
 
 func tableCase(e enumOps, pool []string) string {
@@ -303,16 +306,16 @@ func tableCase(e enumOps, pool []string) string {
 		text, err := e.marshal(v)
 		m, u := "None", "None"
 		if err == nil {
-			m = "(Some " + coretree.Str(text) + ")"
+			m = "(Some " + str(text) + ")"
 			u = optN(e.unmarshal(text))
 		}
-		rows = append(rows, fmt.Sprintf("(%d, %s, %d, %s)", v, m, e.status(v), u))
+		rows = append(rows, fmt.Sprintf("(%d%%N, %s, %d%%N, %s)", v, m, e.status(v), u))
 	}
 	var texts []string
 	for _, t := range pool {
-		texts = append(texts, "("+coretree.Str(t)+", "+optN(e.unmarshal(t))+")")
+		texts = append(texts, "("+str(t)+", "+optN(e.unmarshal(t))+")")
 	}
-	return fmt.Sprintf("KTable %s %d %s %s", coretree.Str(e.name), e.count, hx.List(rows), hx.List(texts))
+	return fmt.Sprintf("KTable %s %d %s %s", str(e.name), e.count, hx.List(rows), hx.List(texts))
 }
 
 // ---------------------------------------------------------------- creation path
@@ -424,7 +427,7 @@ func (e *env) createCase(c, a, b Cfg) (string, bool, []string) {
 		if err != nil {
 			panic(err)
 		}
-		ctx, cancel := context.WithTimeout(context.Background(), 3*time.Second)
+		ctx, cancel := context.WithTimeout(context.Background(), 20*time.Second)
 		_, states, lerr := m2.List(ctx, &selection.Selection{All: true}, 0)
 		cancel()
 		if lerr != nil {
@@ -468,7 +471,7 @@ func (e *env) createCase(c, a, b Cfg) (string, bool, []string) {
 
 // ---------------------------------------------------------------- main
 
-const header = "From Coq Require Import List String Bool NArith.\nImport ListNotations.\nFrom Mv Require Import Common.Bytes Model.Config Harness.ConfigH.\nLocal Open Scope string_scope.\nLocal Open Scope list_scope.\nLocal Open Scope N_scope."
+const header = "From Coq Require Import List String Bool NArith.\nImport ListNotations.\nFrom Mv Require Import Common.Bytes Model.Config Harness.ConfigH.\nLocal Open Scope string_scope.\nLocal Open Scope list_scope."
 
 func main() {
 	fixed := flag.Bool("fixed", false, "expect the repaired creation-time validation (merged configurations validated)")
@@ -527,7 +530,7 @@ func main() {
 			default:
 				panic("unknown constant " + c.Name)
 			}
-			return fmt.Sprintf("KConst %s %d", coretree.Str(c.Name), v), true, []string{"const"}
+			return fmt.Sprintf("KConst %s %d", str(c.Name), v), true, []string{"const"}
 		case "valid":
 			code := validationCode(c.C.real().EnsureValid(c.ES))
 			return fmt.Sprintf("KValid %s %s %d", coqBool(c.ES), c.C.coq(), code), !c.C.isZero(),
@@ -543,7 +546,7 @@ func main() {
 			return fmt.Sprintf("KDir %d %d %d", c.PM, c.Mode, code), true, []string{"dir-mode", fmt.Sprintf("dir-mode:result-%d", code)}
 		case "owner":
 			kind, _ := filesystem.ParseOwnershipIdentifier(c.Spec)
-			return fmt.Sprintf("KOwner %s %s", coretree.Str(c.Spec), coqBool(kind != filesystem.OwnershipIdentifierKindInvalid)), true, []string{"owner"}
+			return fmt.Sprintf("KOwner %s %s", str(c.Spec), coqBool(kind != filesystem.OwnershipIdentifierKindInvalid)), true, []string{"owner"}
 		case "create":
 			return e.createCase(*c.C, *c.A, *c.B)
 		}
@@ -562,7 +565,7 @@ func main() {
 		var coq string
 		var nt bool
 		var tags []string
-		if w.Guard(c, 10*time.Second, func() { coq, nt, tags = run(c) }) {
+		if w.Guard(c, 30*time.Second, func() { coq, nt, tags = run(c) }) {
 			w.Add(hx.Case{Coq: coq, Replay: c, Nontrivial: nt, Tags: tags, Origin: origin})
 		}
 	}
@@ -671,7 +674,7 @@ func main() {
 	}
 
 	// ---- file / directory modes and ownership syntax
-	step := 7
+	step := 16
 	if cfg.Thorough() {
 		step = 1
 	}
@@ -735,11 +738,11 @@ func main() {
 			}
 		}
 	}
-	nValid := 500
-	nMerge := 400
-	nCreate := 350
+	nValid := 300
+	nMerge := 250
+	nCreate := 200
 	if cfg.Thorough() {
-		nValid, nMerge, nCreate = 8000, 6000, 5000
+		nValid, nMerge, nCreate = 3000, 2000, 1500
 	}
 	for i := 0; i < nValid; i++ {
 		add(Case{Kind: "valid", ES: r.Intn(2) == 0, C: randCfg(0.1+0.5*r.Float64(), false)}, "random")
